@@ -97,7 +97,12 @@ def run_verus_unit(unit, repo, workdir, tier, seed):
         fn = None
         src_file = None
         lines_ = []
-        for s in spans:
+        # primary spans first (the failed clause itself); a secondary span only if it is a single line (e.g. the
+        # invariant line of "invariant not satisfied"); multi-line secondary spans are whole bodies and would hit
+        # unrelated clause ids
+        for s in [x for x in spans if x.get('is_primary')] + [x for x in spans if not x.get('is_primary')]:
+            if not s.get('is_primary') and s['line_end'] != s['line_start']:
+                continue
             for ln_no in range(s['line_start'], s['line_end'] + 1):
                 lines_.append(ln_no)
         # prefer a span that sits on a named clause
@@ -224,13 +229,22 @@ def main():
     results = []
     undecided = []
     try:
-        for unit in spec['verus_units']:
+        from concurrent.futures import ThreadPoolExecutor
+
+        def one(unit):
             try:
-                results.append(run_verus_unit(unit, a.repo, workdir, a.tier, seed))
+                return ('ok', run_verus_unit(unit, a.repo, workdir, a.tier, seed))
             except Undecided as e:
-                undecided.append(str(e))
+                return ('undecided', str(e))
             except subprocess.TimeoutExpired:
-                undecided.append('unit %s: verus timed out' % unit)
+                return ('undecided', 'unit %s: verus timed out' % unit)
+
+        with ThreadPoolExecutor(max_workers=8) as pool:
+            for kind, val in pool.map(one, spec['verus_units']):
+                if kind == 'ok':
+                    results.append(val)
+                else:
+                    undecided.append(val)
         kres = None
         if spec.get('kani'):
             try:
@@ -249,7 +263,10 @@ def main():
     violations, known_hits, ignored = [], [], []
     for r in results:
         for f in r['failures']:
-            pref = bool(clause_filter) and any(p in f['clause'] for p in clause_filter)
+            tags = re.findall(r'\bc\d\d\b', f['clause'].split(':')[0]) if not f['clause'].startswith('body:') else []
+            # a clause tagged with property ids counts for those properties; an untagged clause (helper contract that
+            # everything in the unit rests on) counts for every property served by the unit
+            pref = (bool(clause_filter) and any(p in f['clause'] for p in clause_filter)) or (not tags and not f['clause'].startswith('body:'))
             if only and not (f.get('safety') or pref):
                 ignored.append(f['obligation'])
                 continue
@@ -277,7 +294,8 @@ def main():
                 fns.append({'unit': r['unit'], 'fn': fn['fn'], 'src': '%s:%d-%d' % (fn['file'], fn['src_lines'][0], fn['src_lines'][1]),
                             'arm': fn['arm'], 'rewrites': fn['rules']})
             for c in r['named_clauses']:
-                if clause_filter and not any(p in c['clause'] for p in clause_filter):
+                ctags = re.findall(r'\bc\d\d\b', c['clause'])
+                if clause_filter and ctags and not any(p in c['clause'] for p in clause_filter):
                     continue
                 if only and not clause_filter:
                     continue
